@@ -263,7 +263,14 @@ def get_attr(I, obj, name, node):
         # unknown kind: method by name
         if name in STR_METHODS or name in DICT_METHODS or name in LIST_METHODS or name in MATCH_METHODS:
             return Builtin('any.' + name, recv=obj)
-        return Unk('%s.%s' % (obj.name, name), taint=obj.taint, src=('attr', obj, name))
+        mk = ('attr', id(obj), name)
+        if mk not in I.memo:
+            u = Unk('%s.%s' % (obj.name, name), taint=obj.taint, src=('attr', obj, name))
+            if obj.src and obj.src[0] == 'call' and obj.src[1] == 'codecs.lookup' and name == 'name':
+                u.kinds = frozenset(['str'])
+                u.facts |= {'codec-ok', 'canon-codec', 'truthy'}
+            I.memo[mk] = u
+        return I.memo[mk]
     raise AnalysisError('attribute %s of %r at %s' % (name, obj, norm(node)[:60]))
 
 
@@ -403,6 +410,20 @@ def subscript(I, obj, idx, node):
             except (IndexError, TypeError):
                 raise AbsRaise(ExcValue('IndexError', site=node), site=node, explicit=False)
         return Unk('item', taint=tj(obj, idx))
+    if isinstance(obj, Unk) and getattr(obj, 'one_of', None) and is_concrete(idx):
+        try:
+            vals = [concrete(c)[cidx] for c in obj.one_of]
+            u = Unk('%s[%r]' % (obj.name, cidx), taint=tj(obj), src=('item', obj, idx))
+            ks_ = set()
+            for x in vals:
+                ks_ |= kind_of(x) or set()
+            u.kinds = frozenset(ks_)
+            u.one_of = vals
+            if all(vals):
+                u.facts.add('truthy')
+            return u
+        except (IndexError, KeyError, TypeError):
+            pass
     if isinstance(obj, Unk):
         ks = obj.kinds
         if obj.may_be('NoneType') and 'truthy' not in obj.facts:
@@ -930,6 +951,14 @@ def refine_regex(I, m, res):
     if not isinstance(data, Unk) or not isinstance(rx, Regex):
         return
     data.regex_guards = getattr(data, 'regex_guards', []) + [(rx, mode, res)]
+    # a guard on the plain rendering of a value ('%s' % v, str(v)) is a guard on v's rendering
+    if data.src and data.src[0] == 'format' and concrete(data.src[1]) in ('%s', b'%s'):
+        ops = data.src[2] if isinstance(data.src[2], (list, tuple)) else [data.src[2]]
+        if len(ops) == 1 and isinstance(ops[0], Unk):
+            ops[0].regex_guards = getattr(ops[0], 'regex_guards', []) + [(rx, mode, res)]
+    elif data.src and data.src[0] == 'call' and data.src[1] == 'str' and isinstance(data.src[2][0], Unk):
+        o = data.src[2][0]
+        o.regex_guards = getattr(o, 'regex_guards', []) + [(rx, mode, res)]
     if not res:
         m.pin(None)
         return
